@@ -141,7 +141,9 @@ func validReply(c spec.Call) [][]byte {
 func decide(cs api.Case) (*rp.Fail, bool) { return decideWith(cs, hook.ClientCfg{}) }
 
 // decideWith: the verdict depends on the arguments only - never on how the client happens to be configured.
-func decideWith(cs api.Case, cfg hook.ClientCfg) (*rp.Fail, bool) { return decideWarm(cfgCase{Case: cs, Cfg: cfg}) }
+func decideWith(cs api.Case, cfg hook.ClientCfg) (*rp.Fail, bool) {
+	return decideWarm(cfgCase{Case: cs, Cfg: cfg})
+}
 
 func decideWarm(c cfgCase) (*rp.Fail, bool) {
 	cs, cfg := c.Case, c.Cfg
